@@ -148,11 +148,45 @@ def parse_verdicts(out):
     return res
 
 
+def _tlc_trace(path):
+    return run_tlc("TraceSim", "SPECIFICATION TSpec\nCHECK_DEADLOCK FALSE\n", workers=1,
+                   env={"TRACE_FILE": path}, heap="3g", serial_gc=True, timeout=7200)
+
+
 def validate_shard(path):
-    r = run_tlc("TraceSim", "SPECIFICATION TSpec\nCHECK_DEADLOCK FALSE\n", workers=1,
-                env={"TRACE_FILE": path}, heap="3g", serial_gc=True, timeout=7200)
-    if tlc_failed(r["out"]) or "Model checking completed" not in r["out"]:
+    """TLC verdicts for one shard of traces.  Should TLC abort with an
+    evaluation error (data the specification's operators are not defined on -
+    only possible on a changed tree), the shard is re-judged trace by trace so
+    that every other trace still gets its verdicts; the trace TLC could not
+    evaluate is reported as `EVALERR` (counted with the L2 drift)."""
+    r = _tlc_trace(path)
+    if not tlc_failed(r["out"]) and "Model checking completed" in r["out"]:
+        return r
+    if "Parsing or semantic analysis failed" in r["out"] or "Parse Error" in r["out"]:
         raise MachineryError("TLC failed on trace shard %s:\n%s" % (path, r["out"][-3000:]))
+    with open(path) as f:
+        sh = json.load(f)
+    if len(sh["traces"]) <= 1:
+        m = re.search(r"The exception was a [^\n]*\n: ([^\n]*)", r["out"])
+        why = (m.group(1) if m else "evaluation error")[:150].replace('"', "'")
+        r["out"] = '<<"DRIFT", 1, 1, "EVALERR %s">>\n<<"DONE", 1, %d>>\nModel checking completed (single trace not evaluable)\n' % (
+            why, len(sh["traces"][0]["steps"]) if sh["traces"] else 0)
+        return r
+    lines = []
+    sd = scratch()
+    try:
+        for i, tr in enumerate(sh["traces"]):
+            p1 = os.path.join(sd, "one_%d.json" % i)
+            with open(p1, "w") as f:
+                json.dump({"traces": [tr], "gids": [0]}, f)
+            r1 = validate_shard(p1)
+            os.remove(p1)
+            for v in parse_verdicts(r1["out"]):
+                rest = (', "%s"' % v["what"]) if v["kind"] not in ("DONE", "ORDER") else ""
+                lines.append('<<"%s", %d, %d%s>>' % (v["kind"], i + 1, v["l"], rest))
+    finally:
+        shutil.rmtree(sd, ignore_errors=True)
+    r["out"] = "\n".join(lines) + "\nModel checking completed (re-judged trace by trace)\n"
     return r
 
 
